@@ -7,7 +7,7 @@
 set -u
 HERE="$(cd "$(dirname "$0")/.." && pwd)"
 export CARGO_NET_OFFLINE=true
-TGT=/tmp/pgv-seeded-target
+TGT="${PGV_SEEDED_TGT:-/tmp/pgv-seeded-target}"
 case "${1:-}" in
   confirm)
     SRC="$2"; NAME="$3"; PROP="$4"; FLAGS="${5:-}"
